@@ -415,6 +415,45 @@ func runC11(w *World, r *Report) {
 		})
 		r.check(atomicOK && nAcc >= 2, "seen-memory", "Flashback.HasHash/test-and-mark-atomic", w.Pos(fn.Pos()), "lookup and mark happen in one critical section (of several simultaneous deliveries of an item only one is 'not seen')", fmt.Sprintf("%d cache accesses, all inside one exclusive section: %v", nAcc, atomicOK))
 		r.check(marked, "seen-memory", "Flashback.HasHash/marks-on-every-path", w.Pos(fn.Pos()), "every non-error return leaves the hash marked as seen", "no dominating deferred Set of the hash")
+		// a hash mark goes away by expiry only: while copies of an item are in flight nothing may make the item look new
+		bad := ""
+		for _, g := range w.RepoFuncs("cache") {
+			top := g
+			for top.Parent() != nil {
+				top = top.Parent()
+			}
+			if top.Signature.Recv() == nil || !strings.Contains(top.Signature.Recv().Type().String(), "Flashback") {
+				continue
+			}
+			instrsOf(g, func(in ssa.Instruction) {
+				c, ok := in.(ssa.CallInstruction)
+				if !ok {
+					return
+				}
+				n := calleeName(c)
+				if !strings.HasPrefix(n, "(*"+bigPkg+".BigCache).") {
+					return
+				}
+				switch {
+				case strings.HasSuffix(n, ".Reset"):
+					bad += " " + shortFn(g) + " empties the whole memory at " + lineOf(w, c) + ";"
+				case strings.HasSuffix(n, ".Delete"):
+					_, a := callArgs(c)
+					if len(a) == 0 {
+						return
+					}
+					k := strip(a[0])
+					if cv, isConv := k.(*ssa.Convert); isConv {
+						if sl, isSlice := cv.X.Type().Underlying().(*types.Slice); isSlice {
+							if b, isB := sl.Elem().Underlying().(*types.Basic); isB && b.Kind() == types.Uint8 {
+								bad += " " + shortFn(g) + " deletes the mark of a hash at " + lineOf(w, c) + ";"
+							}
+						}
+					}
+				}
+			})
+		}
+		r.check(bad == "", "seen-memory", "Flashback/hash-marks-only-expire", w.Pos(fn.Pos()), "the mark of an item hash is removed by expiry only (address marks have their own release)", bad)
 	}
 
 	r.rule("forward-to-every-uninformed-peer", "the forward loops range the whole peer table and send to every peer that is not in the verified set (no early return, no extra skip condition)", 4)
